@@ -88,7 +88,9 @@ fn run_case(c: &Case, ctx: &mut Ctx) {
     // every sixel sequence written out in the input may cost one picture of the largest accepted size (allocating and clearing 2 x 16 MiB:
     // about 25 ms): the limit is linear in their number, i.e. in the length of the input
     let images = c.input.windows(3).filter(|w| w == b"\x1bPq").count() as u64;
-    let cpu_limit = CPU_LIMIT_NS + images * 40_000_000;
+    // one macro invocation executes up to 8192 commands of one screen pass each (about 0.3 s of legitimate work): the macro-of-work
+    // family is judged against 1 s (the defects it is there for ran 3 s and more)
+    let cpu_limit = if c.key.contains("DCS macro hex of") || c.key.contains("DCS macro text of") { 2 * CPU_LIMIT_NS } else { CPU_LIMIT_NS } + images * 40_000_000;
     if m.cpu_ns > cpu_limit {
         ctx.violation(format!("cpu:{}", c.key), json!({"cpu_ms": m.cpu_ns / 1_000_000, "limit_ms": cpu_limit / 1_000_000}));
     }
@@ -335,6 +337,17 @@ fn build(tier: &str) -> Cost {
     }));
     list.push((Emu::Ansi(0), "DCS macro invoke inside dcs".into(), [dcs("1;0;0!z\x1b[1*z"), dcs("2;0;0!zX\x1b[1*zY"), b"\x1b[2*z".to_vec()].concat()));
     list.push((Emu::Ansi(0), "DCS macro of REP".into(), [dcs("1;0;0!zA\x1b[2147483647b"), b"\x1b[1*z".to_vec()].concat()));
+    // a macro invoked inside the DCS string of its own redefinition is spliced into the new definition: k rounds of "macro 0 = 8 x macro 0"
+    for fill in [21usize, 4000] {
+        for rounds in 1..=8usize {
+            let mut b = dcs(&format!("0;0;0!z{}", "A".repeat(fill)));
+            for _ in 0..rounds {
+                b.extend(dcs(&format!("0;0;0!z{}", "\x1b[0*z".repeat(8))));
+            }
+            b.extend(b"\x1b[0*z");
+            list.push((Emu::Ansi(0), "DCS macro redefined as copies of itself".to_string(), b));
+        }
+    }
     list.push((Emu::Ansi(0), "DCS macro hex of SU".into(), [dcs("1;0;1!z!65536;1B5B3635353336533B;"), b"\x1b[1*z".to_vec()].concat()));
     // a macro made of commands that each do a screen of work: the expansion budget counts characters of the macro, the work of one
     // invocation has to stay bounded as well
